@@ -592,3 +592,87 @@ def run_pool_parity_sites(repo, task):
     if n < 4:
         rep['detail'] = f'only {n} pooled Batch methods found: the generator no longer matches the source layout'
     return rep
+
+
+def run_cache_guard_sites(repo, task):
+    """C05 / C02 / C12 site obligations read off the AST (G13): an IndexHierarchy keeps a label table (`_blocks`) that is stale while `_recache` is set.
+    Every read of `self._blocks` in a method of IndexHierarchy / IndexHierarchyGO is dominated by a test of `self._recache`:
+      (a) a preceding `if self._recache:` whose body refreshes (`self._update_array_cache()`) or leaves the function (return / raise), or
+      (b) it sits in the `else` branch of `if self._recache`, or under an `if` whose test has the conjunct `not self._recache`, or
+      (c) the method assigns `self._blocks` before reading it (constructors, the refresh itself).
+    A read with a guard that tests something else (e.g. `self._blocks is None`) is refuted; a method that calls another cache helper first is undecided."""
+    import ast
+    t0 = time.time()
+    items, failures = [], []
+
+    def ob(name, ok, note, fn, undecided=False):
+        v = 'proved' if ok else ('undecided' if undecided else 'refuted')
+        items.append(dict(name=name, fn=fn, kind='G13', verdict=v, backend='ast', ms=0.0, note=note))
+        if v == 'refuted':
+            failures.append(dict(key=f'G:{name}', what=f'{name}: {note}', nofail=True, replay=dict(site=name, note=note)))
+    path = os.path.join(repo, 'static_frame/core/index_hierarchy.py')
+    tree = ast.parse(open(path).read())
+    n = 0
+
+    def is_self_attr(node, attr, ctx=None):
+        return isinstance(node, ast.Attribute) and node.attr == attr and isinstance(node.value, ast.Name) and node.value.id == 'self' and (ctx is None or isinstance(node.ctx, ctx))
+
+    def leaves_or_refreshes(body):
+        last = body[-1] if body else None
+        return any('self._update_array_cache()' in ast.unparse(s) for s in body) or isinstance(last, (ast.Return, ast.Raise))
+    for cls in [c for c in tree.body if isinstance(c, ast.ClassDef) and c.name in ('IndexHierarchy', 'IndexHierarchyGO')]:
+        for fn in [f for f in cls.body if isinstance(f, ast.FunctionDef)]:
+            parents = {}
+            for node in ast.walk(fn):
+                for ch in ast.iter_child_nodes(node):
+                    parents[id(ch)] = node
+            loads = sorted((x for x in ast.walk(fn) if is_self_attr(x, '_blocks', ast.Load)), key=lambda x: (x.lineno, x.col_offset))
+            if not loads:
+                continue
+            stores = [x.lineno for x in ast.walk(fn) if is_self_attr(x, '_blocks', ast.Store)]
+            q = f'index_hierarchy.py:{cls.name}.{fn.name}'
+            guards = [s for s in ast.walk(fn) if isinstance(s, ast.If) and ast.unparse(s.test) == 'self._recache' and leaves_or_refreshes(s.body)]
+            for k, ld in enumerate(loads):
+                n += 1
+                name = f'{q}:blocks-read#{k}'
+                if stores and min(stores) < ld.lineno:
+                    ob(name, True, f'L{ld.lineno}: the method assigns self._blocks first (L{min(stores)})', q)
+                    continue
+                # (a) a guard statement that precedes the read and is not nested in a branch the read is outside of
+                ok = False
+                for g in guards:
+                    gpar = parents.get(id(g))
+                    encl = ld
+                    inside = False
+                    while id(encl) in parents:
+                        encl = parents[id(encl)]
+                        if encl is gpar:
+                            inside = True
+                            break
+                    if g.end_lineno < ld.lineno and (inside or gpar is fn):
+                        ok = True
+                # (b) lexically under a test of `not self._recache` / in the else of `if self._recache`
+                cur = ld
+                while not ok and id(cur) in parents:
+                    par = parents[id(cur)]
+                    if isinstance(par, ast.If):
+                        t = ast.unparse(par.test)
+                        in_body = any(cur is b or any(cur is x for x in ast.walk(b)) for b in par.body)
+                        in_else = any(cur is b or any(cur is x for x in ast.walk(b)) for b in par.orelse)
+                        conj = [ast.unparse(v) for v in par.test.values] if isinstance(par.test, ast.BoolOp) and isinstance(par.test.op, ast.And) else [t]
+                        if (in_body and 'not self._recache' in conj) or (in_else and t == 'self._recache'):
+                            ok = True
+                    cur = par
+                if ok:
+                    ob(name, True, f'L{ld.lineno}: read under a test of self._recache', q)
+                    continue
+                helper = any(isinstance(c_, ast.Call) and isinstance(c_.func, ast.Attribute) and isinstance(c_.func.value, ast.Name) and c_.func.value.id == 'self'
+                             and 'cache' in c_.func.attr and c_.lineno <= ld.lineno for c_ in ast.walk(fn)) and not guards
+                other_guard = [ast.unparse(s.test) for s in ast.walk(fn) if isinstance(s, ast.If) and s.lineno < ld.lineno and any('_update_array_cache' in ast.unparse(b) for b in s.body)]
+                ob(name, False, f'L{ld.lineno}: self._blocks is read without a preceding test of self._recache' + (f' (refresh guarded by {other_guard} instead)' if other_guard else ''), q,
+                   undecided=helper and not other_guard)
+    rep = dict(name=task['name'], status='ok' if n >= 30 else 'checker-fault', items=items, failures=failures, evaluations=0, distinct=0, rule='',
+               samples=[dict(obligation=i['name'], verdict=i['verdict']) for i in items[:3]], trusted=[], assumptions=[], wall_s=round(time.time() - t0, 2))
+    if n < 30:
+        rep['detail'] = f'only {n} reads of self._blocks found in IndexHierarchy: the generator no longer matches the source layout'
+    return rep
